@@ -117,6 +117,9 @@ class FsRun:
     def _note(self, i, r, action):
         """record what an action did, with the directory projection after it"""
         s = self.sess
+        if not hasattr(self, "last_at"):
+            self.last_at = {}
+        self.last_at[i] = r.get("at")
         snap = s.project()
         s.prev = snap
         if r.get("done"):
@@ -178,9 +181,17 @@ class FsRun:
     def at(self, r):
         return r.get("at")
 
+    emulate_clone = False
+
     def step(self, i):
-        r = self.sched.cmd("step %d" % i)
-        self._note(i, r, "step")
+        # FICLONE is unsupported on this file system; with emulate_clone the tracer performs it
+        at = (self.last_at.get(i) or {}) if hasattr(self, "last_at") else {}
+        if self.emulate_clone and at.get("name") == "ioctl" and at.get("flags") == 0x40049409:
+            r = self.sched.cmd("emuclone %d" % i)
+            self._note(i, r, "emuclone")
+        else:
+            r = self.sched.cmd("step %d" % i)
+            self._note(i, r, "step")
         return r
 
     def fault(self, i, errno):
